@@ -11,7 +11,8 @@ META = {
             "structs of internal/sqlparse/ast (which fields can hold AST nodes, which fields each Children() "
             "really hands to nodes()), every case of the Tables() type switch (which fields go to read / write / "
             "admin, whether the closures drop empty names), StatementKind, writePermissionForKind (both copies) "
-            "and isSchemaAlteringKind, and emits them as Lean data. Lean theorems over a generic tree: "
+            "and isSchemaAlteringKind, and the shape of ast.Walk itself (the recursing function's parameters, every "
+            "return-before-descending, the loop over Children()), and emits them as Lean data. Lean theorems over a generic tree: "
             "C15_walk_complete (if every node-holding field is visited then ast.Walk reaches every descendant, by "
             "induction on trees), C15_tables_cover (every table reference in any expression position at any depth, "
             "and the statement's own target, is reported by Tables() with at least its mode), C15_authz / "
@@ -22,14 +23,21 @@ META = {
             "every usage of EVERY statement is checked with the permission its own kind needs "
             "(C15_batch_memo_counterexample: remembering an allowed (table, usage) across statements is unsound). "
             "Their decidable hypotheses are "
-            "discharged by `decide` over the GENERATED schema. The model is tied to the code by running it on a "
+            "discharged by `decide` over the GENERATED schema; gen_walkUnbounded: the extracted ast.Walk carries no "
+            "depth / node budget (no extra parameter, no early return besides nil and the callback's answer, every "
+            "child recursed into), which is what the model's `walk` mirrors. The model is tied to the code by running it on a "
             "reflection dump of the real AST of generated statements (Tables(), StatementKind, the two authorize "
             "loops with their recorded permission checks), and by a model-free oracle: an independent reflection "
             "walk + SQLite EXPLAIN give the tables a statement touches; withholding exactly one needed permission "
             "must make the real @sql and @transaction gates answer 403. The @sql leg also sends requests of 2-4 "
             "statements (same and different tables, mixed kinds): each (table, permission) any statement needs is "
             "withheld in turn and the whole request must be refused with nothing returned for execution; a part is "
-            "POSTed to the real SQLTransaction handler on a real SQLite database (403 and no table changed).",
+            "POSTed to the real SQLTransaction handler on a real SQLite database (403 and no table changed). A deep and "
+            "wide stream puts one protected table under 50, 150, 200, 250, 400 and 1000 levels of every nesting "
+            "construct (left/right operator chains, unary chains, parentheses, function calls, CAST, CASE in every "
+            "position, COLLATE, a random mix, scalar/EXISTS/IN subqueries, FROM subqueries, left- and right-nested "
+            "joins, compound selects, nested and wide CTEs) and at the end of equally long sibling lists, in every "
+            "statement position, through the same oracle, both gates and (a part) end to end.",
     "note": "trusted: Lean kernel; the translator (fails closed; its field classification is cross-checked against "
             "reflect on every run); the correspondence harness; SQLite (modernc) EXPLAIN as evidence of tables "
             "opened. Modelled, not verified: the parser (a statement's AST is taken as what it means; EXPLAIN of "
@@ -59,6 +67,9 @@ theorem gen_casesComplete : casesComplete Gen.schema Gen.cases Gen.cfg = true :=
 theorem gen_ddlAdmin : ddlAdmin Gen.cases Gen.schemaAltering = true := by decide +kernel
 theorem gen_unknownNotAltering : "StmtUnknown" ∉ Gen.schemaAltering := by decide +kernel
 theorem gen_cfg : Gen.cfg.adminSkipsEmpty = false := by decide +kernel
+/-- ast.Walk is the plain recursion the model's `walk` mirrors: no depth / node budget, no early return
+besides nil and the callback's answer, every child recursed into -/
+theorem gen_walkUnbounded : Gen.walkFacts.unbounded = true := by decide
 /-- both copies of writePermissionForKind agree and map the three DML kinds to their own permission -/
 theorem gen_writePerm :
     (["StmtInsert", "StmtUpdate", "StmtDelete"].map Gen.writePermSql.get
@@ -189,7 +200,10 @@ def run(ctx):
         "rule": "statements generated from the sqlparse grammar (SELECT/INSERT/UPDATE/DELETE with CTEs, joins, compound "
                 "selects, subqueries in every expression position, ON CONFLICT, RETURNING; CREATE/DROP/ALTER TABLE, "
                 "CREATE/DROP INDEX, CREATE/DROP VIEW, transaction control; both dialects; hostile/malformed stream; "
-                "fixed nasty corpus first); non-trivial = a table reference outside the statement's own target "
+                "fixed nasty corpus first; then the deep/wide stream: one protected table under 50-1000 levels of each "
+                "nesting construct or at the end of a 50-1000 element sibling list, counters deep_statements / "
+                "deep_parsed / deep_distinct_over_200_levels / max_reference_level, quick tier takes a third of the "
+                "1000-level shapes and EXPLAINs only texts up to 2500 bytes there); non-trivial = a table reference outside the statement's own target "
                 "(subquery, CTE, join, compound) or a DDL statement; each parsed statement is run through both "
                 "gates with full grants, each needed permission withheld in turn, and a random grant set; "
                 "multi-statement @sql requests of 2-4 statements (fixed corpus, then generated around one focus table "
